@@ -132,7 +132,7 @@ func (g *FieldGen) Prim(allowNone bool) *T {
 	if fixed {
 		pref = fam + ".F"
 	}
-	if allowNone && r.Intn(3) == 0 && (enc == "ascii" || enc == "ebcdic" || enc == "ebcdic1047" || enc == "binary") {
+	if allowNone && !padded && r.Intn(3) == 0 && (enc == "ascii" || enc == "ebcdic" || enc == "ebcdic1047" || enc == "binary") {
 		pref = "none" // K7: one byte per unit
 	}
 	packer := "d"
@@ -284,6 +284,9 @@ func (g *FieldGen) Comp(depth int, allowNone bool) *T {
 			f := sub(false, false)
 			if f.Name == "p" && f.Kids[2].Name != "hexToBytes" && r.Intn(2) == 0 { // typical EMV: BER length prefix on the element
 				f.Kids[3] = A("ber")
+				if _, _, padded := padInfo(f.Kids[4].Name); padded && f.Kids[1].Name == "0" {
+					f.Kids[1] = A("1")
+				}
 			}
 			kids = append(kids, N("sub", A(k), f))
 		}
@@ -457,7 +460,7 @@ func (g *FieldGen) Value(spec *T, over bool) *T {
 		subs := spec.Kids[3:]
 		positional := mode.Name == "t" && mode.Kids[1].Name == "-"
 		v := N("c")
-		fixedPref := strings.HasSuffix(spec.Kids[1].Name, ".F")
+		fixedPref := strings.HasSuffix(spec.Kids[1].Name, ".F") || spec.Kids[1].Name == "none"
 		if positional {
 			k := len(subs)
 			if !fixedPref && r.Intn(3) == 0 {
